@@ -24,6 +24,14 @@ CLAIMED = {
     text="Lean theorems: the models of the attacker-facing functions (every panicking Rust operation modelled as an explicit panic outcome) never reach panic for any byte string; tied to the code by a sweep of every length 0..=2·overhead+64 × content classes under catch_unwind in a dev-profile build with a counting allocator.",
     design="§7 C04", technique="Lean 4 proof of never-panics on the Outcome-model + differential totality sweep",
     note="panics inside dependency crates are outside the model; only the sweep sees them."),
+ "C05": dict(
+    text="Lean theorems about dryoc's own part of X25519/kx (the arithmetic is dalek's): the clamp is idempotent and yields a scalar in [2^254, 2^255) divisible by 8, scalarmult feeds the clamped scalar itself to the ladder (= RFC 7748 X25519 by definition of the spec), key exchange refuses an all-zero shared secret, client rx/tx = server tx/rx given DH commutativity (hypothesis). Tied to the code by impl vs Lean RFC 7748 ladder vs libsodium on random pairs (≈94% off-subgroup), the complete low-order/non-canonical/high-bit table and honest kx pairs.",
+    design="§7 C05", technique="Lean 4 proof (clamp, key schedule, zero refusal, mirror under DH-commutativity hypothesis) + differential correspondence impl/RFC-7748 Lean spec/libsodium",
+    note="curve25519-dalek's field/group arithmetic is modelled by the Lean ladder, not verified; DH commutativity is a hypothesis."),
+ "C06": dict(
+    text="Lean theorems over dryoc's signing/verification sequence (hashing, reduction mod L, encoding; curve ops from the Lean RFC 8032 spec): signing is the RFC 8032 function, combined = detached ‖ message, non-canonical S (S ≥ L, hence every S+kL) is rejected for every 256-bit S, short combined messages are rejected. Tied to the code by impl vs Lean RFC 8032/libsodium-strict spec vs libsodium on every message length, every single-bit mutation, the S+kL family, all small-order/non-canonical encodings and mode cross-overs.",
+    design="§7 C06", technique="Lean 4 proof (signature layout, determinism, canonical-S rejection) + differential correspondence impl/RFC-8032 Lean spec/libsodium",
+    note="dalek Edwards arithmetic and sha2 are modelled by Lean specs, not verified; verify∘sign needs the group law (abstract-group theorem)."),
  "C07": dict(
     text="Lean theorems: the limb-level model of poly1305_soft.rs equals the RFC 8439 specification for every key and message (incl. all carry corners) and never overflows a checked u64/u128 operation; little-endian increment equals +1 mod 256^n. The models are tied to the code by a per-run differential run (impl vs model vs Lean spec vs libsodium) over every length 0..=L, every BLAKE2b digest/key length, and constructed Poly1305 carry corners.",
     design="§7 C07", technique="Lean 4 proof of model = spec (limb arithmetic, carries, overflow freedom) + differential correspondence impl/model/spec/libsodium",
@@ -32,6 +40,14 @@ CLAIMED = {
     text="Lean theorem: for the Poly1305 buffering model, any list of update chunks (empty, straddling, exactly filling) gives the one-shot result of the concatenation, and equals the RFC value. Tied to the code and extended to the other incremental interfaces by exhaustive 2-way/3-way split enumeration and random k-way partitions, impl incremental vs libsodium one-shot vs Lean spec.",
     design="§7 C08", technique="Lean 4 proof (induction over the chunk list with a buffering invariant) + exhaustive split enumeration",
     note="sha2's buffering (SHA-512/HMAC/incremental signing) is not modelled; differential only."),
+ "C12": dict(
+    text="Lean theorems: derive rejects exactly the lengths outside 16..=64; the derived subkey is BLAKE2b with digest length = requested length, key = master key, salt = le64(id)‖0^8, personal = ctx‖0^8 (libsodium's construction); (length, id, context) ↦ parameter block is injective. Tied to the code by impl vs model vs Lean BLAKE2b spec vs libsodium on all 49 lengths × boundary ids.",
+    design="§7 C12", technique="Lean 4 proof (range check iff, parameter-block injectivity) + differential correspondence impl/model/spec/libsodium",
+    note="distinct digests for distinct parameter blocks is collision resistance, checked per batch only."),
+ "C13": dict(
+    text="Lean theorems: seeded key generation in the model is definitionally libsodium's construction (box: SHA-512(seed)[0..32] then base-point multiple for seeds of any length; kx: BLAKE2b-32; sign: seed‖A), the converted secret key is the signing scalar. Tied to the code by impl vs model vs Lean spec vs libsodium on seeds of every length 0..=128 and the conversion-consistency check on every generated pair.",
+    design="§7 C13", technique="Lean 4 proof (constructions, clamp facts) + differential correspondence impl/model/spec/libsodium",
+    note="the Ed→Montgomery map commuting with scalar multiplication is a hypothesis (group law not in Mathlib)."),
  "C17": dict(
     text="Lean theorem over the buffer-level models: whenever an opening function (box/secretbox/sealed/afternm, detached and in-place, stream pull) returns err, the caller's message buffer and tag variable equal their initial values — for every input, not only single corruptions. Tied to the code by the exhaustive single-fault family with sentinel-filled buffers.",
     design="§7 C17", technique="Lean 4 proof (failed open leaves outputs untouched) + exhaustive single-fault differential enumeration with sentinel buffers",
